@@ -13,7 +13,8 @@ use crate::fgen::{self, G};
 use crate::out::{Out, hex};
 use crate::rng::Rng;
 
-const TOKENS: [&str; 78] = [
+const TOKENS: [&str; 83] = [
+    "\"\\\u{e9}\"", "\"a\\\u{1F600}", "y == \"\\\u{e9}", "[\"\\\u{e9}\"]", "{\"\\\u{e9}\"}",
     "b", "i", "p", "y", "ob", "ai", "ay", "my", "aab", "mab", "http.host", "tcp.port", "len", "lower", "concat",
     "any", "all", "not", "!", "and", "&&", "or", "||", "xor", "^^", "==", "eq", "!=", "ne", "<", "<=", ">", ">=",
     "lt", "le", "gt", "ge", "&", "bitwise_and", "in", "contains", "matches", "~", "wildcard", "strict wildcard",
@@ -174,7 +175,10 @@ pub fn run(cfg: Cfg, out: &mut Out) {
         let mut g = G::new(&mut rng, &spec);
         let good = g.expr(false, 2);
         let junk = *rng.pick(&["==", ")", "\"abc", "nosuch", "i in {1..}", "\u{e9}\u{e9} x", "y == \"\\q\"", "ai[-1]", "i == 1 2"]);
-        let t = match rng.below(4) {
+        let t = match rng.below(7) {
+            4 => format!("{good} and\n{junk}"),
+            5 => format!("{good} or\r\n{junk}\n"),
+            6 => format!("{good}\n&&\n{junk}"),
             0 => format!("{good}\nand {junk}"),
             1 => format!("{good} and\n\n  {junk}\n"),
             2 => format!("\n\n{junk}\n{good}"),
